@@ -61,6 +61,10 @@ type Scn struct {
 	// (entering the alternate screen may switch it on by itself)
 	Alt   bool `json:"alt,omitempty"`
 	M1007 bool `json:"m1007,omitempty"`
+	// M1007First: the child sets / resets alternate-scroll mode BEFORE it enters the alternate screen, and enters
+	// it with ?1049h (AltVia 0), ?47h or ?1047h (AltVia 47, 1047): a mode the child has reset stays reset
+	M1007First bool `json:"m1007first,omitempty"`
+	AltVia     int  `json:"altvia,omitempty"`
 }
 
 type Ctx struct {
@@ -403,7 +407,14 @@ func Run(ctx *Ctx, sc *Scn) (evs []trace.Ev, note string) {
 		}
 	}
 	set(sc.Deckpam, "\x1b=", "\x1b>")
-	if sc.Alt {
+	if sc.Alt && sc.M1007First {
+		via := sc.AltVia
+		if via == 0 {
+			via = 1049
+		}
+		set(sc.M1007, "\x1b[?1007h", "\x1b[?1007l")
+		set(true, fmt.Sprintf("\x1b[?%dh", via), "")
+	} else if sc.Alt {
 		set(true, "\x1b[?1049h", "")
 		set(sc.M1007, "\x1b[?1007h", "\x1b[?1007l")
 	}
@@ -780,6 +791,9 @@ func Generate(seed int64, thorough bool) []*Scn {
 				decckm = true
 			}
 			out = append(out, &Scn{Kind: "alt-scroll", Alt: true, M1007: m1007, Decckm: decckm,
+				M1000: mm == 1, M1002: mm == 2, M1003: mm == 3, M1006: mm == 4 || mm == 6 || rng.Intn(2) == 0, Inputs: ins})
+			// the same with the mode chosen before the child enters the alternate screen
+			out = append(out, &Scn{Kind: "alt-scroll-first", Alt: true, M1007: m1007, M1007First: true, AltVia: []int{0, 47, 1047}[mm%3], Decckm: decckm,
 				M1000: mm == 1, M1002: mm == 2, M1003: mm == 3, M1006: mm == 4 || mm == 6 || rng.Intn(2) == 0, Inputs: ins})
 		}
 	}
